@@ -55,11 +55,33 @@ func main() {
 		}
 	}
 	enc := json.NewEncoder(os.Stdout)
+	// MUTATE_GEN=3 prints only the third generation of operators (ids from 200000)
+	if os.Getenv("MUTATE_GEN") == "3" {
+		n := 200000
+		for i := range out {
+			if gen3[out[i].Kind] || strings.HasPrefix(out[i].Kind, "drop-operand") {
+				out[i].ID = n
+				n++
+				enc.Encode(out[i])
+			}
+		}
+		return
+	}
+	k := 0
 	for i := range out {
-		out[i].ID = i
+		if gen3[out[i].Kind] || strings.HasPrefix(out[i].Kind, "drop-operand") {
+			continue
+		}
+		out[i].ID = k
+		k++
 		enc.Encode(out[i])
 	}
 }
+
+// third generation: a conjunct or disjunct forgotten, a loop that stops after its first
+// iteration, a range that skips the first element, continue and break exchanged, the first two
+// arguments of a call exchanged, a case clause removed (its values fall to the default).
+var gen3 = map[string]bool{"loop-once": true, "range-skip-first": true, "continue->break": true, "break->continue": true, "swap-args": true, "delete-case": true}
 
 func keepNewlines(t string) string {
 	b := []byte(t)
@@ -107,6 +129,12 @@ func mutateFile(repo, path string) []mutant {
 				if s.Tok == token.CONTINUE || s.Tok == token.BREAK {
 					add("delete-"+s.Tok.String(), off(s.Pos()), off(s.End()), blank(off(s.End())-off(s.Pos())), s.Pos())
 				}
+				if s.Tok == token.CONTINUE && s.Label == nil {
+					add("continue->break", off(s.Pos()), off(s.End()), "break", s.Pos())
+				}
+				if s.Tok == token.BREAK && s.Label == nil {
+					add("break->continue", off(s.Pos()), off(s.End()), "continue", s.Pos())
+				}
 			case *ast.DeferStmt:
 				add("delete-defer", off(s.Pos()), off(s.End()), blank(off(s.End())-off(s.Pos())), s.Pos())
 			}
@@ -130,10 +158,30 @@ func mutateFile(repo, path string) []mutant {
 			visitStmtList(x.List)
 		case *ast.CaseClause:
 			visitStmtList(x.Body)
+			if x.List != nil {
+				a, b := off(x.Pos()), off(x.End())
+				add("delete-case", a, b, keepNewlines(string(src[a:b])), x.Pos())
+			}
+		case *ast.RangeStmt:
+			if len(x.Body.List) > 0 {
+				e := off(x.Body.Rbrace)
+				add("loop-once", e, e+1, ";break}", x.Body.Rbrace)
+			}
+			if _, isCall := x.X.(*ast.CallExpr); !isCall {
+				a, b := off(x.X.Pos()), off(x.X.End())
+				add("range-skip-first", a, b, "("+string(src[a:b])+")[1:]", x.X.Pos())
+			}
 		case *ast.BinaryExpr:
 			for _, r := range swaps[x.Op] {
 				s := off(x.OpPos)
 				add("swap "+x.Op.String()+" -> "+r, s, s+len(x.Op.String()), r, x.OpPos)
+			}
+			if x.Op == token.LAND || x.Op == token.LOR {
+				a, b := off(x.Pos()), off(x.End())
+				xa, xb := off(x.X.Pos()), off(x.X.End())
+				ya, yb := off(x.Y.Pos()), off(x.Y.End())
+				add("drop-operand-right "+x.Op.String(), a, b, keepNewlines(string(src[a:xa]))+string(src[xa:xb])+keepNewlines(string(src[xb:b])), x.Pos())
+				add("drop-operand-left "+x.Op.String(), a, b, keepNewlines(string(src[a:ya]))+string(src[ya:yb])+keepNewlines(string(src[yb:b])), x.Pos())
 			}
 		case *ast.IfStmt:
 			s, e := off(x.Cond.Pos()), off(x.Cond.End())
@@ -149,6 +197,13 @@ func mutateFile(repo, path string) []mutant {
 			}
 		case *ast.CallExpr:
 			// a copying helper bypassed: the value is passed on as it is
+			if len(x.Args) >= 2 && !x.Ellipsis.IsValid() {
+				a0, a1 := off(x.Args[0].Pos()), off(x.Args[0].End())
+				b0, b1 := off(x.Args[1].Pos()), off(x.Args[1].End())
+				if string(src[a0:a1]) != string(src[b0:b1]) {
+					add("swap-args", a0, b1, string(src[b0:b1])+string(src[a1:b0])+string(src[a0:a1]), x.Pos())
+				}
+			}
 			if id, ok := x.Fun.(*ast.Ident); ok && len(x.Args) == 1 && (strings.HasPrefix(strings.ToLower(id.Name), "copy") || strings.HasPrefix(strings.ToLower(id.Name), "clone")) {
 				a, b := off(x.Pos()), off(x.End())
 				as, ae := off(x.Args[0].Pos()), off(x.Args[0].End())
@@ -159,6 +214,10 @@ func mutateFile(repo, path string) []mutant {
 				add("slice-low 1->0", off(lit.Pos()), off(lit.End()), "0", lit.Pos())
 			}
 		case *ast.ForStmt:
+			if len(x.Body.List) > 0 {
+				e := off(x.Body.Rbrace)
+				add("loop-once", e, e+1, ";break}", x.Body.Rbrace)
+			}
 			if x.Cond != nil {
 				s, e := off(x.Cond.Pos()), off(x.Cond.End())
 				add("negate-for", s, e, "!("+string(src[s:e])+")", x.Cond.Pos())
